@@ -158,3 +158,186 @@ def legacy_rpms_expected(desc):
                 if src is not None:
                     cell[skey] = {"path": src["path"], "sigkey": src["sigkey"].lower() if src["sigkey"] else src["sigkey"], "category": "source"}
     return out
+
+
+# ---------------------------------------------------------------------------------------------------------------
+# composeinfo 0.x / 1.0 / 1.1
+
+from pbt import ci as cim, ti as tim   # noqa: E402
+
+CI_VERSIONS = ["1.1", "1.0", "0.9", "0.4", "0.3", "0.2", "0.0"]
+
+
+def vtuple(version):
+    return tuple(int(x) for x in version.split("."))
+
+
+def _legacy_forest_ok(desc):
+    """pre-1.0 files relate variants only by UID prefix: depth <= 2 and no dashed top-level UID that looks like somebody's child"""
+    uids = set(n["uid"] for n in cim.all_nodes(desc["variants"]))
+    for top in desc["variants"]:
+        for kid in top["children"]:
+            if kid["children"]:
+                return False
+        if top["uid"] != top["id"]:
+            if top["children"]:
+                return False
+            head = top["uid"].rsplit("-", 1)[0]
+            if head in uids or any(u != top["uid"] and (u.startswith(top["uid"] + "-") or top["uid"].startswith(u + "-")) for u in uids):
+                return False
+    return True
+
+
+@st.composite
+def legacy_ci_desc(draw):
+    version = draw(st.sampled_from(CI_VERSIONS))
+    desc = draw(cim.compose_desc(max_top=3, max_depth=3 if vtuple(version) >= (1, 0) else 2))
+    if vtuple(version) < (1, 0):
+        desc["variants"] = [t for t in desc["variants"] if _legacy_forest_ok({"variants": [t]})]
+        if not _legacy_forest_ok(desc):
+            desc["variants"] = [t for t in desc["variants"] if t["uid"] == t["id"]]
+    if vtuple(version) < (0, 3):
+        # date/type/respin exist only inside the id: it must be the documented id form
+        desc["compose"]["id"] = cim.ref_compose_id(desc["release"], desc["base_product"], desc["compose"])
+    return {"version": version, "desc": desc, "stored_type": draw(st.sampled_from(["production", "nightly", "", "whatever"]))}
+
+
+def legacy_ci_doc(case):
+    version, desc = case["version"], case["desc"]
+    v = vtuple(version)
+    doc = cim.expected_doc(desc, version=version)
+    if v < (1, 1):
+        del doc["header"]["type"]
+        p = doc["payload"]
+        p["release"].pop("type", None)
+        p["release"].pop("internal", None)
+        if "base_product" in p:
+            p["base_product"].pop("type", None)
+        for var in p["variants"].values():
+            if "release" in var:
+                var["release"].pop("type", None)
+                var["release"].pop("internal", None)
+    if v < (1, 0):
+        for var in doc["payload"]["variants"].values():
+            var.pop("variants", None)
+    if v <= (0, 3):
+        p = doc["payload"]
+        p["product"] = p.pop("release")
+        for var in p["variants"].values():
+            if "release" in var:
+                var["product"] = var.pop("release")
+    if v < (0, 3):
+        comp = doc["payload"]["compose"]
+        del comp["date"], comp["respin"]
+        comp["type"] = case["stored_type"]
+    return doc
+
+
+def legacy_ci_expected(case):
+    version, desc = case["version"], copy_desc(case["desc"])
+    if vtuple(version) < (1, 1):
+        desc["release"]["type"] = "ga"
+        desc["release"]["internal"] = False
+        if desc["base_product"]:
+            desc["base_product"]["type"] = "ga"
+        for n in cim.all_nodes(desc["variants"]):
+            if "release" in n:
+                n["release"]["type"] = "ga"
+                n["release"]["internal"] = False
+    return cim.expected_snapshot(desc)
+
+
+def copy_desc(d):
+    import copy
+    return copy.deepcopy(d)
+
+
+# ---------------------------------------------------------------------------------------------------------------
+# treeinfo 0.0 (compatibility sections only) / 0.3 / 1.0 / 1.1
+
+TI_VERSIONS = ["1.1", "1.0", "0.3", "0.0"]
+
+
+def _plain(p):
+    return p is None or (bool(p) and not p.endswith("/") and not p.endswith("/repodata") and p != "repodata" and not p.startswith("/"))
+
+
+@st.composite
+def legacy_ti_desc(draw):
+    version = draw(st.sampled_from(TI_VERSIONS))
+    if version == "0.0":
+        desc = draw(tim.tree_desc(max_depth=1, family_filter=tim.plain_family).filter(
+            lambda d: "-" not in d["release"]["version"] and "_" not in d["release"]["version"]
+            and all(_plain(n["paths"].get(k)) for n in d["variants"] for k in tim.PATH_KINDS)
+            and not ((d["stage2"] or {}).get("instimage") or "").startswith("/")))
+        desc["layered"], desc["base_product"] = False, None
+    elif version == "0.3":
+        # the 0.3 reader looks a variant's options up by UID and then by ID: a file in which some variant's id is another
+        # variant's UID is ambiguous by construction and not generated
+        def unambiguous(d):
+            nodes = list(tim.all_nodes(d["variants"]))
+            uids = set(n["uid"] for n in nodes)
+            return all(n["uid"] == n["id"] or n["id"] not in uids for n in nodes)
+        desc = draw(tim.tree_desc().filter(unambiguous))
+    else:
+        desc = draw(tim.tree_desc())
+    if version == "0.3" and desc["tree"]["arch"] == "src":
+        # legacy convention: a source tree keeps its (source) packages/repository under the binary option names
+        for n in tim.all_nodes(desc["variants"]):
+            n["paths"].pop("packages", None)
+            n["paths"].pop("repository", None)
+    return {"version": version, "desc": desc, "use_main": draw(st.booleans())}
+
+
+def legacy_ti_text(case, current_text):
+    """current_text = what the current library writes for the description; returns the older-format file"""
+    version, desc = case["version"], case["desc"]
+    ini = tim.read_ini(current_text)
+    if version in ("1.1", "1.0"):
+        ini["header"]["version"] = version
+        if version == "1.0":
+            del ini["header"]["type"]
+    elif version == "0.3":
+        ini["header"] = {"version": "0.3"}
+        ini["product"] = ini.pop("release")
+        if desc["tree"]["arch"] == "src":
+            for sec in ini:
+                if sec.startswith("variant-") or sec.startswith("addon-"):
+                    if "source_packages" in ini[sec]:
+                        ini[sec]["packages"] = ini[sec].pop("source_packages")
+                    if "source_repository" in ini[sec]:
+                        ini[sec]["repository"] = ini[sec].pop("source_repository")
+    else:
+        ini = {s: o for s, o in ini.items() if s in ("general", "stage2", "checksums") or s.startswith("images-")}
+    out = []
+    for sec in sorted(ini):
+        out.append("[%s]" % sec)
+        for k in sorted(ini[sec]):
+            out.append("%s = %s" % (k, ini[sec][k]))
+        out.append("")
+    return "\n".join(out)
+
+
+def legacy_ti_expected(case):
+    version, desc = case["version"], case["desc"]
+    snap = tim.expected_snapshot(desc)
+    if version != "0.0":
+        return snap
+    main = desc["main_variant"] if case["use_main"] else None
+    main_uid = main if main is not None else sorted(n["uid"] for n in desc["variants"])[0]
+    node = [n for n in desc["variants"] if n["uid"] == main_uid][0]
+    t = desc["tree"]
+    src = t["arch"] == "src"
+    g = tim.expected_general(desc, main)
+    repo = g.get("repository", ".")
+    pk = g.get("packagedir", repo)
+    paths = {k: None for k in tim.PATH_KINDS}
+    if src:
+        paths["source_packages"], paths["source_repository"] = pk, repo
+    else:
+        paths["packages"], paths["repository"] = pk, repo
+    vid = main_uid.split("-")[-1]
+    return {"release": {"name": desc["release"]["name"], "short": "", "version": desc["release"]["version"], "is_layered": False},
+            "tree": {"arch": t["arch"], "build_timestamp": int(t["build_timestamp"]), "platforms": sorted(set([t["arch"]]) | set(desc["images"]))},
+            "variants": {main_uid: {"id": vid, "uid": main_uid, "name": vid, "type": "variant", "paths": paths, "parent": None, "children": {}}},
+            "images": snap["images"], "stage2": snap["stage2"], "media": {"discnum": None, "totaldiscs": None}, "checksums": snap["checksums"]}
